@@ -28,7 +28,7 @@ Ltac bool_simp :=
          end.
 
 Ltac crush :=
-  unfold svalid, sym_valid, is_kind, is_factor, is_rootop, is_eig, label_ok, plainv, mkv, with_kind, with_ok in *;
+  unfold svalid, sym_valid, is_kind, is_factor, is_rootop, is_eig, label_ok, plainv, mkv, mkv8, with_kind, with_ok in *;
   simpl in *; bool_simp; simpl in *;
   repeat match goal with
          | |- context [smat_eqb ?A ?A] => rewrite smat_eqb_refl
@@ -36,14 +36,14 @@ Ltac crush :=
          end; simpl; auto.
 
 Ltac brute v :=
-  destruct v as [? ? [] [] [] [] ?];
+  destruct v as [? ? [] [] [] [] ? []];
   repeat match goal with k : skind |- _ => destruct k end;
   repeat match goal with r : role |- _ => destruct r end;
   repeat match goal with b : bool |- _ => destruct b end;
   simpl in *; try discriminate.
 
 Ltac fin :=
-  unfold svalid, sym_valid, is_kind, is_factor, is_rootop, is_eig, label_ok, plainv, mkv, with_kind, with_ok,
+  unfold svalid, sym_valid, is_kind, is_factor, is_rootop, is_eig, label_ok, plainv, mkv, mkv8, with_kind, with_ok,
          tri_use_ok in *;
   simpl in *; try discriminate;
   repeat match goal with
@@ -131,7 +131,8 @@ Proof.
     repeat match goal with H : ?x = true |- _ => rewrite H in Hu end.
     repeat match goal with H : sv_of _ = _ |- _ => rewrite H in Hu end.
     simpl in Hu.
-    destruct gi; [destruct (sv_tri E) eqn:Et; [destruct st; simpl in Hu; [destruct (sv_upper E) eqn:Eu; [discriminate|]|]|]|];
+    destruct gi; [destruct (sv_inst E) eqn:Ei; destruct (sv_tri E) eqn:Et; destruct st; simpl in Hu;
+                  try (destruct (sv_upper E) eqn:Eu; [discriminate|])|];
       inversion Hu; subst; unfold svalid, sym_valid; simpl; rewrite ?smat_eqb_refl, ?Nat.eqb_refl; simpl;
       (split; [|intros x Hx; inversion Hx; subst; simpl; rewrite ?smat_eqb_refl, ?Nat.eqb_refl; simpl]);
       unfold label_ok; simpl;
@@ -156,7 +157,7 @@ Proof.
       [rewrite smat_eqb_refl; reflexivity | intros m v Hv; brute v; fin | exact F].
   - (* iqld_kron *) intros A rhs ld iq e Hiq He. unfold svalid, sym_valid in *.
     destruct rhs as [r|], iq as [x|]; try contradiction; destruct ld, e as [e'|]; try contradiction;
-      cbn [k_iqld_kron sym_kern plainv mkv sv_ok sv_of sv_kind]; unfold is_kind, is_eig, iqld_rhs in *;
+      cbn [k_iqld_kron sym_kern plainv mkv mkv8 sv_ok sv_of sv_kind]; unfold is_kind, is_eig, iqld_rhs in *;
       cbn [sv_kind] in *;
       repeat match goal with
              | H : _ && _ = true |- _ => apply andb_prop in H; destruct H
@@ -167,7 +168,7 @@ Proof.
              | H : sv_ok _ = true |- _ => rewrite H
              | H : smat_eqb _ _ = true |- _ => rewrite H
              end;
-      rewrite ?smat_eqb_refl; cbn [plainv mkv sv_kind andb skind_eqb onat_eqb Bool.eqb]; rewrite ?Nat.eqb_refl; reflexivity.
+      rewrite ?smat_eqb_refl; cbn [plainv mkv mkv8 sv_kind sv_ok andb skind_eqb onat_eqb Bool.eqb]; rewrite ?Nat.eqb_refl; reflexivity.
 Qed.
 
 (* ------------------------------------------------------------------ instances of the history predicates *)
